@@ -102,7 +102,27 @@ def modes(ctx, case):
     status = ctx.fresh_int('status', 0, 256)
     words = [symx_tok('prog')] + ([ctx.choose([symx_tok('w%d' % k), '-r', '-g', '--supress', '-l'], 'word%d' % k) for k in range(2)] if part == 'child' else ['-g', symx_tok('w')])
 
+    via_cli = ctx.choose([False, True], 'via_command_line') if part == 'child' else False
+    if via_cli:
+        libdir = None       # the default library directory does not exist in the sandbox
+
     def mkargs(mode, path=''):
+        if via_cli and mode == Mode.RUN:
+            # the command line a user types: our options, the marker, then the program's words (possibly spelled like our options)
+            import io, contextlib
+            from frontends.tui import arguments
+            saved_cg = arguments.check_gdb
+            arguments.check_gdb = lambda: False
+            try:
+                with contextlib.redirect_stdout(io.StringIO()), contextlib.redirect_stderr(io.StringIO()):
+                    try:
+                        a = arguments.parse_args(['main.py'] + (['--supress'] if supress else []) + [ctx.choose(['-r', '--run', '-Cr'], 'marker')] + list(words))
+                    except SystemExit:
+                        # usage error / help: the program's own words were taken for ours
+                        a = Arguments(False, False, True, None, '', matcher.always, matcher.never, None, ['main.py'], [])
+            finally:
+                arguments.check_gdb = saved_cg
+            return a
         return Arguments(False, False, not supress, mode, path, matcher.always, matcher.never, libdir, ['main.py'], list(words))
 
     saved = (main.protocol.load_all, runner.subprocess, runner.os, runner.threading, main.__dict__.get('open'), main.sys)
@@ -210,10 +230,13 @@ def modes(ctx, case):
                 class FakeThreading:
                     Thread = FakeThread
                 runner.subprocess, runner.os, runner.threading = FakeSubprocessModule, FakeOs, FakeThreading
-                try:
-                    main.main(mkargs(Mode.RUN), output, input_func)
-                except SystemExit as e:
-                    code = e.code
+                a = mkargs(Mode.RUN)
+                info['mode'] = a.mode
+                if a.mode == Mode.RUN:
+                    try:
+                        main.main(a, output, input_func)
+                    except SystemExit as e:
+                        code = e.code
                 info.update(calls=calls, st=st, sched=sched)
         finally:
             main.sys = saved[5]
@@ -229,6 +252,9 @@ def modes(ctx, case):
         r_out, r_err, code, r_info = run_mode('run')
     finally:
         main.protocol.load_all = saved[0]
+    ctx.check('-r / --run selects run mode whatever the program\'s own words look like', r_info.get('mode') == Mode.RUN)
+    if r_info.get('mode') != Mode.RUN:
+        return
     ctx.check('pipe mode shows exactly what file mode shows', p_out == f_out and [e for e in p_err] == [e for e in f_err])
     ctx.check('run mode shows exactly what file mode shows (every chunking, every schedule)', r_out == f_out and r_err == f_err)
     calls, st = r_info['calls'], r_info['st']
